@@ -38,6 +38,9 @@ type in struct {
 	N0     uint64   `json:"n0,omitempty"`
 	Steps  int      `json:"steps,omitempty"`
 	Stalls []uint64 `json:"stalls,omitempty"`
+
+	// e2e: the real Attack loop runs this pacer for DurationNs of real time
+	DurationNs int64 `json:"duration_ns,omitempty"`
 }
 
 func (x *in) startAt() float64 { return math.Float64frombits(x.StartAtBits) }
